@@ -188,6 +188,22 @@ def run(db, cx):
     shared.prestep_scratch_reset(db, cx, "C02.2-secondaries-reset", meths=("secondaries",),
                                  step_limit=False)
 
+    # 2d ------ the two kernels of ExtendFromSecondaries are one transaction: LocateAlive decides
+    # which slots are kept for a first secondary, ProcessSecondaries carries the decision out
+    for f in db.get(C + "ExtendFromSecondariesAction::step_impl"):
+        tag = f.inst.split("<")[-1][:30]
+        loc_ = [(b, i) for (b, i, ev) in f.calls(C + "ExtendFromSecondariesAction::locate_alive")]
+        cx.require(loc_, "step_impl no longer calls locate_alive")
+        okp, path = f.must_pass(lambda ev: ev["e"] == "call" and
+                                ev["callee"] == C + "ExtendFromSecondariesAction::process_secondaries",
+                                start=loc_[0])
+        cx.ob("C02.2-kernels-paired", "ExtendFromSecondaries: every path after locate_alive launches "
+              "process_secondaries [%s]" % tag, okp, "must-pass on all normal exits", short(f.loc),
+              path=f.path_locs(path),
+              why="LocateAlive already counted a dying parent's first secondary as 'stays in the slot': "
+                  "if ProcessSecondaries does not run, that secondary never becomes a track and the "
+                  "killed parent stays in the slot")
+
     # 3b ----------------------------------- index array re-sequenced before every partition
     n_part = 0
     for f in db.get(C + "InitializeTracksAction::step_impl"):
